@@ -188,6 +188,39 @@ def fallback_differences(input_doc: dict, text: str) -> list[str]:
     return diffs
 
 
+def fallback_map_differences(input_doc: dict, text: str, sm) -> list[str]:
+    """The source map returned with a fallback is a map of the returned text: one entry per op, each pointing at the
+    line and column where that op's name is written; one position mark per `Position<...>` written, on the line of the
+    op that carries it. (Only the SsbScript fallback is judged this way: there every op is one call statement.)"""
+    if not isinstance(sm, dict):
+        return [f"source map unreadable: {sm!r}"[:120]]
+    lines = text.split("\n")
+    diffs = []
+    ops = {o["off"]: o for r in input_doc["routines"] for o in r["ops"]}
+    mp = sm.get("map", {})
+    if sorted(int(k) for k in mp) != sorted(ops):
+        diffs.append(f"ops mapped {len(mp)}, ops in the routine set {len(ops)}")
+    for k, (ln, col) in mp.items():
+        o = ops.get(int(k))
+        if o is None:
+            continue
+        if not (0 <= ln < len(lines)) or not lines[ln][col:].startswith(o["op"] + "("):
+            diffs.append(f"op {k} ({o['op']}) mapped to {ln}:{col} where the text has {lines[ln][col:col + 20]!r}" if 0 <= ln < len(lines) else f"op {k} mapped outside the text")
+            break
+    want_marks = sum(1 for o in ops.values() for p in o["params"] if isinstance(p, dict) and p.get("t") == "pos")
+    marks = sm.get("pos_marks", [])
+    if len(marks) != want_marks:
+        diffs.append(f"{len(marks)} position marks in the map, {want_marks} position markers in the routine set")
+    op_lines = {ln for ln, _ in mp.values()}
+    for m in marks:
+        if m[0] not in op_lines:
+            diffs.append(f"position mark {m[4]!r} on line {m[0]}, where no op is mapped")
+            break
+    if sm.get("macros", {}).get("map") or sm.get("macros", {}).get("pos_marks"):
+        diffs.append("macro entries in a decompiler's source map")
+    return diffs
+
+
 class _TooSlow(BaseException):
     pass
 
